@@ -480,7 +480,7 @@ func (c *EvalCtx) index(e EIndex) EV {
 		return EV{T: Ite(present, Select(fr.mapVals(xt, u), c.term(i), vs), fr.R.TM.Zero(u.Elem())), Ty: u.Elem()}
 	case *types.Slice:
 		es := fr.R.TM.SortOf(u.Elem())
-		arr := fr.R.Heap.Get(fr.st, elemsComp(es), ArraySort(SInt, ArraySort(SInt, es)))
+		arr := fr.R.Heap.Get(fr.st, elemsComp(u.Elem()), ArraySort(SInt, ArraySort(SInt, es)))
 		return EV{T: Select(Select(arr, app(SInt, "s-arr", xt), ArraySort(SInt, es)), Add(app(SInt, "s-off", xt), c.term(i)), es), Ty: u.Elem()}
 	case *types.Basic:
 		if xt.Sort == SString {
@@ -540,7 +540,7 @@ func (c *EvalCtx) heapCompArgsTV(spec string, pkgPath string, tv map[string]type
 			c.fail("%v", err)
 		}
 		es := fr.R.TM.SortOf(ty)
-		return []Term{h.Get(fr.st, elemsComp(es), ArraySort(SInt, ArraySort(SInt, es)))}
+		return []Term{h.Get(fr.st, elemsComp(ty), ArraySort(SInt, ArraySort(SInt, es)))}
 	case strings.HasPrefix(spec, "map["):
 		ty, err := fr.R.Eng.ResolveTypeWith(spec, pkgPath, tv)
 		if err != nil {
@@ -548,7 +548,7 @@ func (c *EvalCtx) heapCompArgsTV(spec string, pkgPath string, tv map[string]type
 		}
 		mt := ty.(*types.Map)
 		ks, vs := fr.mapSorts(mt)
-		return []Term{h.Get(fr.st, mapDomComp(ks, vs), ArraySort(SInt, ArraySort(ks, SBool))), h.Get(fr.st, mapValComp(ks, vs), ArraySort(SInt, ArraySort(ks, vs)))}
+		return []Term{h.Get(fr.st, mapDomComp(mt), ArraySort(SInt, ArraySort(ks, SBool))), h.Get(fr.st, mapValComp(mt), ArraySort(SInt, ArraySort(ks, vs)))}
 	case strings.HasPrefix(spec, "field "):
 		parts := strings.Split(strings.TrimSpace(spec[6:]), ".")
 		fname := parts[len(parts)-1]
@@ -573,7 +573,7 @@ func (c *EvalCtx) heapCompArgsTV(spec string, pkgPath string, tv map[string]type
 			c.fail("%v", err)
 		}
 		s := fr.R.TM.SortOf(ty)
-		return []Term{h.Get(fr.st, boxComp(s), ArraySort(SInt, s))}
+		return []Term{h.Get(fr.st, boxComp(ty), ArraySort(SInt, s))}
 	case spec == "chans":
 		return []Term{h.Get(fr.st, chanClosedComp, ArraySort(SInt, SBool))}
 	case spec == "maplen":
@@ -701,6 +701,20 @@ func (c *EvalCtx) call(e ECall) EV {
 			}
 		}
 		c.fail("len of %s", ExprString(e.Args[0]))
+	case "sumLens":
+		// sum of len(x[i]) over a slice of slices
+		x := c.eval(e.Args[0])
+		st, ok := types.Unalias(x.Ty).Underlying().(*types.Slice)
+		if !ok || fr.R.TM.SortOf(st.Elem()) != SSlice {
+			c.fail("sumLens needs a slice of slices")
+		}
+		xt := c.term(x)
+		E := fr.R.Heap.Get(fr.st, elemsComp(st.Elem()), ArraySort(SInt, ArraySort(SInt, SSlice)))
+		off := app(SInt, "s-off", xt)
+		return EV{T: app(SInt, "sumlen", Select(E, app(SInt, "s-arr", xt), ArraySort(SInt, SSlice)), off, Add(off, app(SInt, "s-len", xt))), Ty: intT}
+	case "backing":
+		x := c.eval(e.Args[0])
+		return EV{T: app(SInt, "s-arr", c.term(x)), Ty: intT}
 	case "cap":
 		x := c.eval(e.Args[0])
 		return EV{T: app(SInt, "s-cap", c.term(x)), Ty: intT}
